@@ -96,7 +96,7 @@ fn load<R>(
 }
 
 /// Deep type invariant over a context (also after a failed load).
-fn invariant_only(scheme: &Scheme, ctx: &ExecutionContext<'_>) -> Result<(), String> {
+pub(crate) fn invariant_only(scheme: &Scheme, ctx: &ExecutionContext<'_>) -> Result<(), String> {
     for f in scheme.fields() {
         if let Some(v) = ctx.get_field_value(f) {
             if v.get_type() != f.get_type() {
@@ -127,7 +127,7 @@ fn read_back(env: &Env, scheme: &Scheme, ctx: &ExecutionContext<'_>) -> Result<C
 }
 
 /// the documented JSON form of a context
-fn expected_doc(env: &Env, vals: &Ctx, lists: &ListState) -> J {
+pub(crate) fn expected_doc(env: &Env, vals: &Ctx, lists: &ListState) -> J {
     let mut o = serde_json::Map::new();
     for (f, v) in env.fields.iter().zip(vals) {
         if let Some(v) = v {
@@ -271,7 +271,7 @@ fn type_from_json(j: &J) -> Option<RType> {
 
 /// serialise a document with `type` before `data` in list entries (the order the
 /// engine itself writes), since serde_json::Value would sort the keys
-fn doc_to_text(doc: &J) -> String {
+pub(crate) fn doc_to_text(doc: &J) -> String {
     fn w(j: &J, out: &mut String, in_lists: bool) {
         match j {
             J::Object(o) => {
@@ -384,7 +384,7 @@ fn mutate_node(j: &mut J, n: &mut usize, r: &mut Rng) -> bool {
     }
 }
 
-fn degenerate_envs() -> Vec<Env> {
+pub(crate) fn degenerate_envs() -> Vec<Env> {
     let mut v = Vec::new();
     // no fields, but lists
     v.push(Env {
